@@ -258,7 +258,7 @@ def run(args, repo, jobs, seed, workdir, outdir):
         i, (p, start, count) = i_task
         job = {"mode": "batch", "property": prop, "profile": p["name"], "seed": seed,
                "start": start, "count": count, "replay_to": workdir, "samples": 1,
-               "max_viol": 6, "wall_s": wall_cap, "shrink_s": 45}
+               "max_viol": 3, "wall_s": wall_cap, "shrink_s": 20}
         b = race_binary if p["race"] else binary
         return run_worker(b, job, workdir, "b%d" % i, wall_cap + 600)
 
@@ -281,6 +281,8 @@ def run(args, repo, jobs, seed, workdir, outdir):
         if o and o.get("harness_err"):
             infra_msgs.append("harness error in %s: %s" % (p["name"], o["harness_err"][:3000]))
             continue
+        if res["rc"] == 4 and o:
+            continue  # hang while minimising a violation that is already in the output
         if res["rc"] != 0:
             # the worker died: panic, race report, watchdog or timeout
             b = race_binary if p["race"] else binary
